@@ -113,8 +113,10 @@ func c15Stream(sc c15Scn, o *c15Obs) func() {
 			if rc, ok := conn.(interface{ RemoteCall() string }); ok {
 				o.remoteCall = rc.RemoteCall()
 			}
-			if _, err := conn.Write(ps); err != nil {
-				o.postErr = "server write: " + err.Error()
+			if len(ps) > 0 { // (with nothing to send the client may have hung up already)
+				if _, err := conn.Write(ps); err != nil {
+					o.postErr = "server write: " + err.Error()
+				}
 			}
 			buf := make([]byte, len(pc))
 			n, err := c15ReadFull(conn, buf, sc.Read)
@@ -122,6 +124,8 @@ func c15Stream(sc c15Scn, o *c15Obs) func() {
 			if err != nil && len(pc) > 0 {
 				o.postErr = "server read: " + err.Error()
 			}
+			// done: hang up at once - what was sent before must still arrive (the client may not have read it yet)
+			conn.Close()
 			o.serverDone = true
 		})
 		vs.GoNamed("client", true, func() {
@@ -143,8 +147,10 @@ func c15Stream(sc c15Scn, o *c15Obs) func() {
 			if sc.IdlePast {
 				vtime.Sleep(time.Second) // the session outlasts the dial deadline
 			}
-			if _, err := conn.Write(pc); err != nil {
-				o.postErr = "client write: " + err.Error()
+			if len(pc) > 0 { // (with nothing to send the server may have hung up already)
+				if _, err := conn.Write(pc); err != nil {
+					o.postErr = "client write: " + err.Error()
+				}
 			}
 			buf := make([]byte, len(ps))
 			n, err := c15ReadFull(conn, buf, sc.Read)
@@ -152,6 +158,7 @@ func c15Stream(sc c15Scn, o *c15Obs) func() {
 			if err != nil && len(ps) > 0 {
 				o.postErr = "client read: " + err.Error()
 			}
+			conn.Close()
 			o.clientDone = true
 		})
 		vs.WaitUntil("both sides done", func() bool { return o.serverDone && o.clientDone })
@@ -403,6 +410,9 @@ func (sc c15Scn) describe() string {
 func c15Judge(sc c15Scn, o *c15Obs, res *vs.Result) (string, string) {
 	if res.Outcome == "panic" {
 		return "panic|" + res.Panic.Site, res.Panic.Value
+	}
+	if fs := closeSendRaces(res); len(fs) > 0 {
+		return fs[0][0], fs[0][1]
 	}
 	if sc.Kind == "deadline" {
 		const T = 300 * time.Millisecond
